@@ -754,6 +754,8 @@ def ply_bytes(rng, g):
         ct, it = rng.choice([("uchar", "B"), ("ushort", "H"), ("uint", "I")]), rng.choice([("int", "i"), ("uint", "I"), ("ushort", "H")])
         if g.num_points > 60000:
             it = ("int", "i")
+        elif g.num_points <= 127 and rng.random() < 0.3:
+            it = rng.choice([("uchar", "B"), ("char", "b"), ("short", "h"), ("uint8", "B"), ("int16", "h"), ("uint16", "H")])
         polys = []
         fs = list(g.faces)
         i = 0
